@@ -279,10 +279,26 @@ func RunPipeline(seed int64, tier, driver, outDir string, n int, search bool, co
 			res.Failures = append(res.Failures, core.FailRec{Prop: "C18", Msg: f + " [" + line + "]", File: file})
 		}
 	}
-	res.Evaluations += Multi.Steps + Multi.NetOverlaps
+	// the BindAny steps against the Lean model
+	if len(AnyScripts.Lines) > 0 && !search {
+		model, err := core.RunModel(driver, []core.Case{{Lines: AnyScripts.Lines}})
+		if err != nil {
+			res.Disagreements = append(res.Disagreements, core.DisRec{Op: "driver", Model: err.Error()})
+		} else {
+			for j := range AnyScripts.Lines {
+				if model[0][j] != AnyScripts.Obs[j] {
+					file := filepath.Join(outDir, fmt.Sprintf("C18-seed%d-anydisagree.txt", seed))
+					os.WriteFile(file, []byte("# BindAny: the real pipe and the Lean model (Pipes.bindAnyStep) disagree\n"+AnyScripts.Lines[j]+"\n# impl : "+AnyScripts.Obs[j]+"\n# model: "+model[0][j]+"\n"), 0o644)
+					res.Disagreements = append(res.Disagreements, core.DisRec{File: file, Line: j, Op: AnyScripts.Lines[j], Impl: AnyScripts.Obs[j], Model: model[0][j]})
+					break
+				}
+			}
+		}
+	}
+	res.Evaluations += Multi.Steps + Multi.NetOverlaps + len(AnyScripts.Lines)
 	res.Extra = map[string]any{"forked_deliveries": forked, "sync_deliveries": synced, "flat_skipped": skipped,
 		"multi_binding_scenarios": Multi.Scenarios, "multi_binding_steps": Multi.Steps, "netmach_target_scenarios": Multi.NetScenarios,
-		"netmach_overlapping_toggles": Multi.NetOverlaps, "busy_target_scenarios": Multi.BusyScenarios, "bindany_scenarios": Multi.AnyScenarios}
+		"netmach_overlapping_toggles": Multi.NetOverlaps, "busy_target_scenarios": Multi.BusyScenarios, "bindany_scenarios": Multi.AnyScenarios, "bindany_steps_replayed_in_the_model": len(AnyScripts.Lines)}
 	res.WallS = time.Since(t0).Seconds()
 	return res
 }
